@@ -67,6 +67,9 @@ func (varsScen) Gen(r *Rng, cfg GenConfig) any {
 			v.Kind, v.Args = "exec", []string{Pick(r, []string{"echo ", "echo   ", "echo -n "}) + word + Pick(r, []string{"", " ", "   "})}
 			if r.Chance(1, 8) {
 				v.Args = []string{Pick(r, []string{"exit 3", "false", "echo oops && exit 1"})}
+			} else if r.Chance(1, 8) {
+				// several lines of output: only the surrounding whitespace is trimmed
+				v.Args = []string{Pick(r, []string{"printf 'one\\ntwo\\n'", "printf '  a b\\n\\nc\\n\\n'", "echo first && echo second"})}
 			}
 		}
 		c.Vars = append(c.Vars, v)
@@ -108,6 +111,14 @@ func vaModelValue(v VarDef, proj string) (val string, fails bool) {
 		return filepath.Join(args...), false
 	default:
 		cmd := v.Args[0]
+		switch cmd {
+		case "printf 'one\\ntwo\\n'":
+			return "one\ntwo", false
+		case "printf '  a b\\n\\nc\\n\\n'":
+			return "a b\n\nc", false
+		case "echo first && echo second":
+			return "first\nsecond", false
+		}
 		if !strings.HasPrefix(cmd, "echo") || strings.Contains(cmd, "exit") {
 			return "", true
 		}
@@ -207,13 +218,19 @@ func (varsScen) Exec(w *World, cc any, prop string) *Result {
 		return res
 	}
 	if obs.Failed {
-		res.Abandoned = "invocation failed although every variable evaluates: " + short(obs.ErrText, 300)
+		// every variable evaluates and every command is valid shell once the values are substituted
+		// textually: a failure means the text that reached the shell is not that substitution
+		res.violate("C13", "template-is-textual-substitution", sig, "the invocation failed although every variable evaluates and the substituted commands are valid: %s", short(obs.ErrText, 300))
 		return res
 	}
 	if c.Mode == "vars" {
 		lines := strings.Split(obs.Stdout, "\n")
 		for _, v := range c.Vars {
 			found := false
+			if strings.Contains(model[v.Name], "\n") {
+				res.count("accept_either:multi_line_value_in_vars_table")
+				continue
+			}
 			for _, l := range lines {
 				// layout (padding, separators) is not specified: compare words
 				f := tableFields(l)
@@ -236,7 +253,7 @@ func (varsScen) Exec(w *World, cc any, prop string) *Result {
 	got := jr[0].Results
 	want := 1 + len(tmplCmds) + len(c.Vars) + 1
 	if len(got) != want {
-		res.Abandoned = fmt.Sprintf("C20: expected %d command results, the report has %d", want, len(got))
+		res.violate("C13", "other-text-unchanged", sig, "the task has %d command lines, %d commands reached the shell (a substituted value must not change where a command ends): %s", want, len(got), short(jsonStr(got), 400))
 		return res
 	}
 	k := 1
